@@ -1327,6 +1327,7 @@ pub fn run(args: &Args) -> i32 {
     check.section("sequences", seq_strategy, t.pick(50_000, 2_000_000), seq_case);
     // layer 3: the real prover service over the real pool, harness-controlled in-flight proof computations
     check.require_label("prover:refresh-with-proof-in-flight").require_label("prover:proof-judged").require_label("prover:judged-while-other-in-flight");
+    check.require_label("prover:legacy").require_label("prover:current").require_label("prover:proof-ended-inside-refresh-at:Computing-the-Merkle").require_label("prover:proof-ended-inside-refresh-at:Draining-the-Merkle");
     check.section("prover", crate::prover::prover_strategy, t.pick(6000, 300_000), crate::prover::prover_case);
 
     #[cfg(c18_rewrite_ok)]
